@@ -222,7 +222,9 @@ def run_property(pid, tier, module, seed=0):
             continue
         seen.add(kf["id"])
         lines.append(f"KNOWN-FINDING: property={pid} {kf['what']}")
-    all_discharged = len(proved) == len(counted) and not vac_problems and not errors and counted
+    kf_names = {o["name"] for _, o in known_hits}
+    claim = [o for o in counted if o["name"] not in kf_names]        # obligations failing as a listed known finding are reported apart
+    all_discharged = len(proved) == len(claim) and not vac_problems and not errors and claim
     level = module.LEVEL if all_discharged else "other"
     lib_used = sorted({x for r in results for x in r.get("lib", [])})
     samples = []
@@ -232,8 +234,9 @@ def run_property(pid, tier, module, seed=0):
     for o in counted:
         by_status[o["status"]] = by_status.get(o["status"], 0) + 1
     cov = {
-        "obligations": len(counted),
+        "obligations": len(claim),
         "discharged": len(proved),
+        "known_finding_obligations": len(counted) - len(claim),
         "refuted": len(refuted),
         "undecided": len(undecided),
         "errors": len(errors),
